@@ -764,7 +764,14 @@ class Gene:
 
         def preserved_mutations(f, m):
             def filter_f(m):
-                m = self.region_at(m.pos)
+                # Use the region of the first base of the variant as written in the
+                # database (RefSeq orientation): the loaded position is the last
+                # RefSeq base on the reverse strand, so a variant that spans a region
+                # border would otherwise change regions with the strand (build).
+                pos = m.pos
+                if (m.pos, m.op) in self.mutations:
+                    pos = self.ref_to_chr.get(self.mutations[m.pos, m.op][3], m.pos)
+                m = self.region_at(pos)
                 if m:
                     return self.cn_configs[f].cn[m[0]][m[1]] > 0
                 return False
